@@ -27,7 +27,10 @@ RULE = ("libraries parsed (default stack, empty stack, or with name / month / ke
         "the library has at least one entry or string block, i.e. some mutable field/value/metadata object that could be shared")
 TRUSTED = ["heap snapshotter harness/heapsnap.py: walks __dict__, list, dict, set, tuple; fails closed on any other object type; "
            "objects reachable only through C-level state or closures would be invisible (none in the shipped classes)",
-           "atoms (str, int, None, bool, exception objects) are hashed to integers for the model; every exception is one atom",
+           "the oracle streams walk THROUGH exception objects (args, instance attributes, __cause__/__context__; not "
+           "__traceback__): the error object of a failed block may itself be shared, what it holds is input state like any other",
+           "atoms (str, int, None, bool, exception objects) are hashed to integers for the model; every exception is one atom "
+           "(the heap model does not look inside error objects; the oracle streams do)",
            "string-dependent decisions of Resolve/Sort (which values are bare references; the sort permutation) enter the heap "
            "model as arguments computed by an independent reference in the harness",
            "string-level results of the shipped bodies (stripped/enclosed text, month names, lowered keys, sort ranks, name "
@@ -39,7 +42,8 @@ ASSUMPTIONS = ["copy.deepcopy is CPython's: in the theorems it is a Section vari
                "fuelled copy used to run the model is shown to satisfy the contract on the example heaps by vm_compute and is "
                "compared with CPython's deepcopy through the correspondence on every run",
                "exception objects are atoms: sharing an exception object is not aliasing (property text; "
-               "ParsingException.__deepcopy__ returns self)"]
+               "ParsingException.__deepcopy__ returns self); a block, field, list or dict kept as an attribute / argument of "
+               "such an object is NOT covered by this: reaching it from the result is aliasing"]
 
 # ---------------------------------------------------------------------------------------------- middleware configurations
 BLOCK_ORDERS = [["String", "Preamble", "Entry", "ImplicitComment", "ExplicitComment"],
@@ -328,22 +332,32 @@ def in_deepcopy(e):
 def check_stage(lib, run, what):
     """Run `run(lib)`; return (result, problems, stats).  The property on one call:
        (a) the input library is structurally equal to its prior deep copy and consists of the same objects,
-       (b) no mutable object reachable from the result is an object of the input graph."""
+       (b) no mutable object reachable from the result is an object of the input graph.
+       Both graphs include what the error objects of failed blocks hold (heapsnap passes through exception objects)."""
     import heapsnap as HS
-    snap = HS.clone(lib)
+    memo = {}
+    snap = HS.clone(lib, memo)
+    # error objects holding more than atoms were rebuilt for the reference copy: Block.__eq__ compares them by identity
+    eq_applies = not any(HS.is_exc(o) and o is not c for o, c in memo.values())
+    ids_before = HS.reachable([lib])
     d0 = HS.struct_diff(lib, snap)
-    if d0 is not None or any(i in HS.reachable([lib]) for i in HS.reachable([snap])):   # the reference must be trustworthy
+    if d0 is not None or any(i in ids_before for i in HS.reachable([snap])):   # the reference must be trustworthy
         raise HS.UnknownObject("the reference copy of the input is not a structurally equal, disjoint copy: %s" % d0)
     pre = []
     try:                                       # CPython's deepcopy must be able to copy the library, and agree with the reference
-        d1 = HS.struct_diff(copy.deepcopy(lib), snap)
+        dc = copy.deepcopy(lib)
+        # an exception object may be shared by the copy (property text), and a shared exception object that holds input
+        # state (a block, a list) makes the copy reach into the input: then there is nothing to compare the reference with;
+        # whether a RESULT reaches input state that way is (b) below
+        d1 = None if shares(ids_before, dc) else HS.struct_diff(dc, snap)
+    except HS.UnknownObject:
+        raise
     except Exception as e:  # noqa: BLE001  (F15: InvalidNameError could not be copied)
         d1 = None
         pre.append("%s: copy.deepcopy of the input library raises %s: copy-mode middleware and write_string cannot work on it"
                    % (what, type(e).__name__))
     if d1 is not None:
         raise HS.UnknownObject("copy.deepcopy and the reference copy differ: " + d1)
-    ids_before = HS.reachable([lib])
     imap = HS.identity_map(lib)
     try:
         res = run(lib)
@@ -361,7 +375,7 @@ def check_stage(lib, run, what):
         problems.append("%s: input library mutated at %s" % (what, d))
     elif HS.identity_map(lib) != imap:
         problems.append("%s: input library now consists of other objects" % what)
-    elif not (lib.blocks == snap.blocks and lib.entries_dict == snap.entries_dict and lib.strings_dict == snap.strings_dict):
+    elif eq_applies and not (lib.blocks == snap.blocks and lib.entries_dict == snap.entries_dict and lib.strings_dict == snap.strings_dict):
         problems.append("%s: input library != its prior deep copy (by __eq__)" % what)
     sh = shares(ids_before, res)
     if sh:
